@@ -68,7 +68,7 @@ where
             check_methods(&ast, &mut fr.diagnostics);
 
             // Sort diagnostics by line
-            fr.diagnostics.sort_by_key(|d| d.range.start.line_col.0);
+            fr.diagnostics.sort_by_key(|d| d.range.start.offset);
 
             (
                 id,
